@@ -127,6 +127,18 @@ CHECKS = {
              "every text and chains of two rejected texts.",
         note="trusted: differential twin; names introduced only by the rejected text are ignored, as the property allows",
         design="DESIGN.md section 4, C11"),
+    "C12": dict(
+        engine="E1 space",
+        technique="bounded exhaustive enumeration of the operator-pair / literal / statement grammar; each program is compiled, unparsed, re-compiled in a twin context and both programs are run and compared (differential round trip)",
+        text="For every program of: all ordered pairs of the 24 binary operators in three parenthesis shapes over integer, boolean and string atoms plus mixed "
+             "relational/logical shapes, unary x binary combinations, ** / member / @ chains; 55 literal forms (every escape, doubled and escaped quotes, hex, "
+             "exponents, MIN/MAX integers, negative literals) and the decimal lattice incl. 17-digit values; the seed programs, the C06 nesting grammar at "
+             "top level and as function bodies, a sample of the C07 error programs, x:type declarations and function signatures with every type spelling, "
+             "chained statements - T1 = unparse(compile(S)) must be accepted in a twin context, both programs must give the same output, result, error "
+             "and final variables/functions, and unparse(compile(T1)) must equal T1. Sources the parser rejects are outside the domain and are skipped "
+             "(counted separately).",
+        note="trusted: twin context as 'equivalent context'; the interactive save/load commands are driven by the C19 check",
+        design="DESIGN.md section 4, C12"),
 }
 
 NOT_YET = {}
